@@ -86,6 +86,60 @@ def body_keys(n, ops, *args):
     return True
 
 
+def body_random_items(kind, n, epochs, *args):
+    """datasets derived by reshuffling / local shuffling / prefetching still pair every yielded example with its own key in items(),
+    or refuse items() loudly; a frozen snapshot of a reshuffle keeps keys(), items() and iteration aligned whatever the original does later"""
+    from lazy_dataset.core import DictDataset
+    xs, rsel, ch = list(args[:4]), list(args[4:13]), list(args[13:])
+    vals = rt.mk(n, xs)
+    src = DictDataset({rt.KEYS[j]: (rt.KEYS[j], v) for j, v in enumerate(vals)})      # every example carries its own key
+    rng = rt.Rng(sel=rsel, choices=ch)
+    if kind == 'reshuffle':
+        ds = src.shuffle(True, rng=rng)
+    elif kind == 'reshuffle_map':
+        ds = src.shuffle(True, rng=rng).map(lambda e: (e[0], e[1] + 1))
+    elif kind == 'local':
+        ds = src.shuffle(True, rng=rng, buffer_size=2)
+    elif kind == 'reshuffle_pf1':
+        ds = src.shuffle(True, rng=rng).prefetch(1, 2)
+    elif kind == 'reshuffle_filter':
+        ds = src.shuffle(True, rng=rng).filter(lambda e: True)
+    else:   # 'frozen'
+        base = src.shuffle(True, rng=rng)
+        ds = base.copy(freeze=True)
+        ks0 = list(ds.keys())
+        it0 = list(ds)
+        if [e[0] for e in it0] != ks0:
+            return False
+        _ = list(base)                       # the original draws its next permutation
+        _ = base.copy(freeze=True)           # ... and is frozen again
+        ks1, it1, items1 = list(ds.keys()), list(ds), list(ds.items())
+        rt.reached()
+        if ks1 != ks0 or it1 != it0:
+            return False
+        if [k for k, _ in items1] != ks0 or [e for _, e in items1] != it0:
+            return False
+        for j, k in enumerate(ks0):
+            if ds[k] != it0[j] or ds.items()[j] != (k, it0[j]):
+                return False
+        return True
+    for _ in range(epochs):
+        try:
+            items = list(ds.items())
+        except Exception:   # noqa
+            rt.reached()
+            return kind in ('reshuffle_pf1',) or False      # only a prefetching stage may refuse here
+        seen = []
+        for k, e in items:
+            if e[0] != k:                    # paired with its own key
+                return False
+            seen.append(k)
+        if sorted(seen) != sorted(rt.KEYS[:n]):
+            return False
+    rt.reached()
+    return True
+
+
 def _maybe_keys(ds):
     try:
         ds.keys()
@@ -94,10 +148,20 @@ def _maybe_keys(ds):
         return False
 
 
+SLICING = ('sl', 'idx', 'nparr', 'keys', 'shuffle', 'sort', 'sort_nokey', 'split', 'shard', 'efilt')
+DELEGATING = ('map', 'parmap', 'filt', 'catch', 'copy', 'fcopy', 'kzip_b')
+
+
 def _slice_above_source(ops):
-    """region of the known finding: some stage of the pipeline is a SliceDataset (slice, index list, key list, shuffle, sort,
-    split/shard, eager filter), whose key lookup delegates to its input without consulting the selection"""
-    return any(o[0] in ('sl', 'idx', 'nparr', 'keys', 'shuffle', 'sort', 'sort_nokey', 'split', 'shard', 'efilt') for o in ops)
+    """region of the known finding: the string lookup reaches a SliceDataset (slice, index list, key list, shuffle, sort, split/shard,
+    eager filter) through stages that hand the key to their input unchecked (map, lazy filter, catch, copy, key_zip).  A stage that checks
+    membership itself (concatenate, intersperse, cache, items, eager cache) shields the lookup: there, removed keys must raise."""
+    for op in reversed(ops):
+        if op[0] in SLICING:
+            return True
+        if op[0] not in DELEGATING:
+            return False
+    return False
 
 
 def conditions(tier, seed):
@@ -135,6 +199,11 @@ def conditions(tier, seed):
 
 
 FAMILIES = [
+    Family('random_items', body_random_items, ['kind', 'n', 'epochs'],
+           [(f'x{i}', 'int') for i in range(4)] + [(f'r{i}', 'int') for i in range(9)] + [(f'c{i}', 'int') for i in range(6)],
+           lambda tier, seed: [(k, n, e) for k in ('reshuffle', 'reshuffle_map', 'local', 'reshuffle_pf1', 'reshuffle_filter', 'frozen') for n in (0, 1, 2, 3)
+                               for e in ((1, 2) if k != 'frozen' else (1,)) if n * e <= (4 if tier == 'quick' else 6)],
+           timeout=dict(quick=60, thorough=300), desc='items() of reshuffled / locally shuffled / prefetched datasets pairs each example with its own key; frozen snapshots stay aligned'),
     Family('keys', body_keys, ['n', 'ops'], U.POOL_PARAMS, conditions, timeout=dict(quick=60, thorough=300),
            desc='keys()/items() aligned with iteration; ds[key] returns the example of that key; absent or removed keys raise'),
 ]
